@@ -198,10 +198,30 @@ def ser_tagged(doc: Sequence[Dict[str, Any]], templates: Dict[str, Any], rst: bo
     out = Out()
     emit_blocks(out, regs[0], 0, rst, templates)
     prev_single = False
+    prev_group = None
     for k, reg in enumerate(regs[1:]):
         f, body = reg[0], reg[1:]
-        if not (k > 0 and prev_single):
+        form = f.get("form", "plain")
+        if form != "plain":
+            # reST consolidated field: consecutive fields of one kind and form are the entries of one ":Parameters:"
+            if not rst:
+                raise NotExpressible("consolidated fields are a reStructuredText notation")
+            group = (f["kind"], form)
+            if group != prev_group:
+                out.sep()
+                out.put(0, f":{f['ctag']}:")
+            elif not prev_single:
+                out.sep()
+            if form == "cbullet":
+                emit_blocks(out, body, 6, True, templates, glue=(4, f"- `{f['arg']}`: "), cont=6)
+            else:
+                out.put(4, f["arg"])
+                emit_blocks(out, body, 8, True, templates, glue=(8, ""), cont=8)
+            prev_group, prev_single = group, _single(body)
+            continue
+        if not (k > 0 and prev_single and prev_group is None):
             out.sep()
+        prev_group = None
         if rst and strict and len(body) > 1 and body[1]["t"] == "lit" and len(para_lines(body[0], True, True)) == 1:
             # docutils takes the indentation of a field body from the first line after the marker line: a literal
             # block straight after a one-line first paragraph would not be indented relative to it
@@ -228,6 +248,8 @@ FREEFORM = {"return", "returns", "yield", "yields", "note", "see", "seealso"}
 
 def ser_napoleon(doc: Sequence[Dict[str, Any]], templates: Dict[str, Any], numpy: bool) -> str:
     regs = regions(doc)
+    if any(n["t"] == "field" and n.get("form", "plain") != "plain" for n in doc):
+        raise NotExpressible("consolidated fields are a reStructuredText notation")
     if any(n["t"] == "head" for n in regs[0]):
         raise NotExpressible("section headings collide with the section syntax of this style")
     table = NUMPY_SECTION if numpy else GOOGLE_SECTION
@@ -662,6 +684,7 @@ CONSTANTS MaxActions = {actions}
           MaxFields = {fields}
           Kinds = {kinds}
           Blocks = {blocks}
+          Forms = {forms}
           FreeChoice = {free}
 CONSTRAINT Emit
 INVARIANT OracleSane
@@ -670,6 +693,9 @@ ALL_BLOCKS = ["para", "list", "lit", "doctest", "code", "section"]
 ALL_KINDS = ["param", "arg", "keyword", "type", "return", "returns", "rtype", "returntype", "yield", "yields", "ytype",
              "yieldtype", "raise", "raises", "except", "warn", "warns", "see", "seealso", "note", "author", "since",
              "custom", "ivar", "cvar", "var"]
+
+
+CONS_KINDS = ["param", "arg", "keyword", "type", "except", "var", "ivar", "cvar"]      # kinds with a consolidated form
 
 
 def tla_set(xs: Sequence[str]) -> str:
@@ -969,6 +995,8 @@ def plan(ctx: Ctx) -> List[Dict[str, Any]]:
             dict(name="fields", actions=2, depth=1, fields=2, kinds=ALL_KINDS, blocks=["para"], free=False, sample=None),
             dict(name="structure=4", actions=4, depth=3, fields=1, kinds=["param", "note"], blocks=ALL_BLOCKS, free=False,
                  sample=1200),
+            dict(name="rst-consolidated<=3", actions=3, depth=2, fields=2, kinds=CONS_KINDS, blocks=["para", "list", "lit", "doctest"],
+                 free=False, sample=2500, forms=["plain", "cbullet", "cdef"], formats=["restructuredtext"]),
         ]
     return [
         dict(name="structure<=4", actions=4, depth=3, fields=2, kinds=rep, blocks=ALL_BLOCKS, free=False, sample=None),
@@ -980,6 +1008,8 @@ def plan(ctx: Ctx) -> List[Dict[str, Any]]:
              sample=25000),
         dict(name="nesting<=6", actions=6, depth=3, fields=0, kinds=[], blocks=["para", "list", "lit", "doctest"], free=False,
              sample=20000),
+        dict(name="rst-consolidated<=4", actions=4, depth=2, fields=3, kinds=CONS_KINDS + ["note"], blocks=["para", "list", "lit", "doctest", "code"],
+             free=False, sample=30000, forms=["plain", "cbullet", "cdef"], formats=["restructuredtext"]),
     ]
 
 
@@ -1008,8 +1038,12 @@ def run(ctx: Ctx) -> int:
     whole_templates: Dict[str, Any] = {}
     for pl in plan(ctx):
         cfg = CFG.format(actions=pl["actions"], depth=pl["depth"], fields=pl["fields"], kinds=tla_set(pl["kinds"]),
-                         blocks=tla_set(pl["blocks"]), free="TRUE" if pl["free"] else "FALSE")
+                         blocks=tla_set(pl["blocks"]), forms=tla_set(pl.get("forms", ["plain"])),
+                         free="TRUE" if pl["free"] else "FALSE")
         recs, templates, r = tlc_documents(ctx, cfg)
+        if pl.get("forms"):
+            # documents without a consolidated field are the business of the other configurations
+            recs = [x for x in recs if any(n["t"] == "field" and n["form"] != "plain" for n in x["doc"])]
         enumerated = len(recs)
         if pl["sample"] is not None and len(recs) > pl["sample"]:
             recs.sort(key=lambda x: json.dumps(x["doc"], sort_keys=True) + x["host"])
@@ -1017,7 +1051,7 @@ def run(ctx: Ctx) -> int:
             all_exhaustive = False
         if not whole_pool:
             whole_pool, whole_templates = list(recs), templates
-        outs = run_documents(ctx, recs, templates, FORMATS)
+        outs = run_documents(ctx, recs, templates, pl.get("formats", FORMATS))
         for o in outs:
             st = stats[o["fmt"]]
             st["rendered"] += o["rendered"]
@@ -1056,6 +1090,7 @@ def run(ctx: Ctx) -> int:
                         (n["lv"] - (1 if n["t"] == "item" else 0)) < prev["lv"]:
                     usage["CloseList(fused)"] += 1
         cfg_stats.append({"cfg": pl["name"], "constants": {k: pl[k] for k in ("actions", "depth", "fields", "kinds", "blocks", "free")},
+                          "forms": pl.get("forms", ["plain"]), "formats": pl.get("formats", FORMATS),
                           "documents_enumerated": enumerated, "documents_replayed": len(recs),
                           "tlc_distinct_states": r.distinct})
     # ------------------------------------------------------------------ a sample through a complete pydoctor run
